@@ -181,12 +181,18 @@ def main():
                 for pkt in ("password", "master", "localized"):
                     for eg in (False, True):
                         for cl in ("sync", "async"):
-                            for rel in ("distinct", "same_pw", "auth"):
+                            for rel in ("distinct", "same_pw", "auth", "raw"):
                                 if rel == "auth" and pkt != "password":
                                     continue
                                 pw = bytes(rng.randrange(33, 127) for _ in range(rng.choice([8, 9, 16, 20])))
-                                d = rigp.Cfg("v3", user="mx", auth=auth, priv=priv, auth_kt=akt, priv_kt=pkt, auth_pw=pw,
-                                             priv_pw=pw if rel == "same_pw" else pw + b"#2", engine_given=eg, client=cl).to_json()
+                                c = rigp.Cfg("v3", user="mx", auth=auth, priv=priv, auth_kt=akt, priv_kt=pkt, auth_pw=pw,
+                                             priv_pw=pw if rel == "same_pw" else pw + b"#2", engine_given=eg, client=cl)
+                                if rel == "raw":
+                                    # one and the same octet string (of the digest's size) handed over as both secrets,
+                                    # each under its own key type - all nine (auth type, privacy type) pairs
+                                    x = bytes(rng.randrange(33, 127) for _ in range(16 if auth == "md5" else 20))
+                                    c.auth_raw = c.priv_raw = x
+                                d = c.to_json()
                                 if rel == "auth":
                                     d["_priv_octets"] = "auth"
                                 mx.append(d)
